@@ -72,5 +72,61 @@ Definition svd_interface_flip (flipf : list (list F) -> list (list F) -> bool ->
     let '(U, V) := if flip_sign then flipf U V u_based else (U, V) in
     Ok (U, Sg, V)
   end.
-End SymeigConj.
 
+(* svd_interface with a mask (imputation loop of Model/Svd.v mask_loop, ring operations of Op) and the sign-resolution function as an
+   argument, without non_negative: the complex requests with a mask run this at the Gaussian rationals *)
+Definition svd_interface_cmask (flipf : list (list F) -> list (list F) -> bool -> list (list F) * list (list F))
+    (funs : fname -> nat -> list (list F) -> triple F) (meth : method) (d2 : nat) (M : list (list F)) (n : option nat)
+    (flip_sign u_based : bool) (mask : option (list (list F))) (iters : nat) : res (triple F) :=
+  match dispatch meth with
+  | None => Err
+  | Some f =>
+    let svd_fun := funs f in
+    let t0 := svd_fun 0 M in
+    let '(_, t1) := match mask, n with
+                    | Some msk, Some _ => mask_loop Op svd_fun d2 msk iters 1 M t0
+                    | _, _ => (M, t0) end in
+    let '(U, Sg, V) := t1 in
+    let '(U, V) := if flip_sign then flipf U V u_based else (U, V) in
+    Ok (U, Sg, V)
+  end.
+
+(* ---------- randomized_range_finder / randomized_svd as of the conjugate-aware code: A_H = conj(transpose(A)) in the power iterations,
+   Q_H = conj(transpose(Q)) for the reduced matrix; the transposed branch works on transpose(matrix) (no conjugate) and lifts by
+   transpose(Q) (no conjugate).  Same structure as Model/Svd.v randomized_svd. ---------- *)
+Definition range_finder_conj (qr : nat -> list (list F) -> list (list F)) (A : list (list F)) (cA : nat) (G : list (list F)) (n_iter : nat)
+  : list (list F) :=
+  power_iter Op qr A (cjmat (transp Op cA A)) n_iter 1 (qr 0 (mmul Op (ncols G) A G)).
+
+Definition randomized_svd_conj (svd : list (list F) -> bool -> triple F) (qr : nat -> list (list F) -> list (list F)) (G : list (list F))
+    (M : list (list F)) (d1 d2 : nat) (n : option nat) (n_over n_iter : nat) : triple F :=
+  let '(k, mn, mx) := svd_checks d1 d2 n in
+  let n_dims := Nat.min (k + n_over) mx in
+  let t := Nat.min mn n_dims in
+  if ((d2 <? d1) && (t <? k)) || ((d1 <? d2) && (k <? t)) then
+    let Mt := transp Op d2 M in
+    let Q := range_finder_conj qr Mt d1 G n_iter in
+    let c := ncols Q in
+    let Mred := transp Op d1 (mmul Op d1 (cjmat (transp Op c Q)) Mt) in
+    let '(U, Sg, V) := truncated_svd (svd Mred) d1 c (Some k) in
+    (U, Sg, mmul Op d2 V (transp Op c Q))
+  else
+    let Q := range_finder_conj qr M d2 G n_iter in
+    let c := ncols Q in
+    let Mred := mmul Op d2 (cjmat (transp Op c Q)) M in
+    let '(U, Sg, V) := truncated_svd (svd Mred) c d2 (Some k) in
+    (mmul Op (ncols U) Q U, Sg, V).
+
+(* the LAST tl.qr call of the range finder: its index and the test matrix P it sketches A with (A @ P); generic in the scalar operations
+   (Proofs/SvdRandE2E.v final_test is the instance at Rops) *)
+Fixpoint last_test_g (qr : nat -> list (list F) -> list (list F)) (A At : list (list F)) (n_iter call : nat) (Q P : list (list F))
+  : nat * list (list F) :=
+  match n_iter with
+  | 0 => (call - 1, P)
+  | S k => let Q1 := qr call (mmul Op (ncols Q) At Q) in
+           last_test_g qr A At k (S (S call)) (qr (S call) (mmul Op (ncols Q1) A Q1)) Q1
+  end.
+Definition final_test_g (qr : nat -> list (list F) -> list (list F)) (A : list (list F)) (cA : nat) (G : list (list F)) (n_iter : nat)
+  : nat * list (list F) :=
+  last_test_g qr A (transp Op cA A) n_iter 1 (qr 0 (mmul Op (ncols G) A G)) G.
+End SymeigConj.
